@@ -7,6 +7,7 @@ import Q1t.Proofs.LatexInv
 import Q1t.Proofs.LatexOnce
 import Q1t.Proofs.LatexExpect
 import Q1t.Proofs.LatexProv
+import Q1t.Proofs.LatexLoops
 /-!
 # C13 — the LaTeX (qcircuit) export is a well-formed grid depicting the circuit; undrawable operations are errors
 
@@ -15,7 +16,7 @@ Property theorems only.  Statements are about the executable model `Q1t.Latex` o
 correspondence run of `tools/check.py C13`), and about the grid of symbols `Q1t.Latex.grid` that the
 model's `code` prints (that the exported TEXT reads back as this grid is checked at run time by the
 reader `Spec.QcGrid.readDoc` on the implementation's output, not proved).
-Proofs are in `Q1t/Proofs/Latex{Basic,Shape,Conn,Inv,Trace,Stages,Once,Expect,Prov}.lean`.
+Proofs are in `Q1t/Proofs/Latex{Basic,Shape,Conn,Inv,Trace,Stages,Once,Expect,Prov,NoPanic,Loops}.lean`.
 -/
 namespace Q1t.Props.C13
 open Q1t.Latex Q1t.Spec.QcGrid Q1t.Proofs.Latex
@@ -74,6 +75,29 @@ theorem undrawable_error_value (nq : Nat) (pre : List Op) (op : Op) (post : List
     (hpre : opsLatex nq pre s = .ok s1) (hp : op.isPeek = true) :
     opsLatex nq (pre ++ op :: post) s = .err .notImplemented :=
   peek_after_ok_prefix nq pre op post s s1 hpre hp
+
+/-
+FULL STATEMENT (false on the pinned code, see the negative witnesses `neg_*_panics` below and the known
+findings): for every circuit `circuitLatex c` is `.ok` or `.err`, never `.panic`.
+Proved for all circuits, of any size and length, whose operations satisfy `opOk` (the class of
+`connectors_in_grid_on_partner_partial`: in particular every control outside the span of its targets)
+and the decidable `opSafe c.nq`, which excludes exactly the remaining known panic classes:
+  * a Loop of ≥ 3 iterations placed on no qubits (`zero-width loop`), on operands that are not qubits of
+    the circuit (only constructible in the model: `Circuit::add_gate` validates operands), or holding
+    another Loop of ≥ 3 iterations (`nested loop`: underflow in the header offsets of `code`);
+  * a Composite with a sub-gate on a local qubit index outside the composite (`sub-bit out of range`);
+  * a condition on more than 64 classical bits (`1 << pos` on the `u64` target word; NEW finding
+    `panic:cond-more-than-64-bits`, witness `neg_condition_over_64_bits_panics`).
+The invariants used: `Inv` ("no column yet ⇒ every wire in use", free fields are empty), `InG` / `InR`
+(inside a range a column exists and every open range ends inside the grid, nested ranges included),
+`LoopInv` (loop braces are recorded left to right and inside the matrix, so the header offsets of
+`code` do not underflow).
+-/
+/-- **latex_never_panics** (partial: `opOk` and `opSafe`) — the export returns text or an error. -/
+theorem latex_never_panics_partial (c : Circ)
+    (hop : ∀ op ∈ c.ops, opOk op = true ∧ opSafe c.nq op = true) :
+    (∃ t, circuitLatex c = .ok t) ∨ (∃ e, circuitLatex c = .err e) :=
+  circuitLatex_ok_or_err hop
 
 /-! ## Provenance: every operation exactly once, wires in program order, clear connector spans
 
@@ -259,7 +283,30 @@ example : (sample.ops.all fun op => !(op.malformed sample.nq)) = true ∧ (sampl
 /-- One-column operations of `sample` for which `stage_is_expected_partial` applies. -/
 example : (sample.ops.filter oneColumn).length = 6 := by decide
 
+/-- `latex_never_panics_partial` applies to `sample` (loop of 3 iterations, composite, conditional
+Toffoli on 2 classical bits …). -/
+example : ∀ op ∈ sample.ops, opOk op = true ∧ opSafe sample.nq op = true := by decide
+
 /-! ## Negative witnesses: the full property fails on the pinned code -/
+
+/-- Each class excluded by `opSafe` really panics (and is excluded): composite sub-bit out of range,
+a Loop of ≥ 3 iterations on no qubits, a Loop of ≥ 3 iterations in a circuit without wires (model only),
+a nested Loop (`neg_nested_loop_panics` below). -/
+theorem neg_unsafe_classes_panic :
+    circuitLatex ⟨1, 0, [.gate (.comp "c" 1 (.cons (.box "H" 1) [1] .nil)) [0]]⟩ = .panic ∧
+    opSafe 1 (.gate (.comp "c" 1 (.cons (.box "H" 1) [1] .nil)) [0]) = false ∧
+    circuitLatex ⟨1, 0, [.gate (.loop 3 (.comp "c" 0 .nil)) []]⟩ = .panic ∧
+    opSafe 1 (.gate (.loop 3 (.comp "c" 0 .nil)) []) = false ∧
+    circuitLatex ⟨0, 0, [.gate (.loop 3 (.comp "c" 1 .nil)) [5]]⟩ = .panic ∧
+    opSafe 0 (.gate (.loop 3 (.comp "c" 1 .nil)) [5]) = false := by decide
+
+/-- NEW finding: a conditional gate on 65 classical bits (accepted by `add_conditional_gate`) makes
+`set_condition` evaluate `1 << 64` on a `u64`: a panic in checked builds. With 64 bits it is drawn. -/
+theorem neg_condition_over_64_bits_panics :
+    circuitLatex ⟨1, 65, [.cond (List.range 65) 0 .x [0]]⟩ = .panic ∧
+    opOk (.cond (List.range 65) 0 .x [0]) = true ∧ opSafe 1 (.cond (List.range 65) 0 .x [0]) = false ∧
+    (circuitLatex ⟨1, 64, [.cond (List.range 64) 1 .x [0]]⟩ matches .ok _) := by decide +kernel
+
 
 /-- D11: a control between its targets is a panic, not an error (and not a drawing). -/
 theorem neg_ctrl_between_targets_panics : circuitLatex ⟨3, 0, [.gate ccxGate [1, 0, 2]]⟩ = .panic := by decide
